@@ -6,7 +6,7 @@ PROPS = "theories/Props/C02.v"
 
 def gen_cases(run):
     rng = run.rng; cases = []
-    dist = {"models": 0, "top": {"collection": 0, "graph": 0}, "depth": {}, "contextual_models": 0, "causaloids": 0, "pairs_direct_vs_wrapped": 0}
+    dist = {"models": 0, "top": {"collection": 0, "graph": 0}, "depth": {}, "contextual_models": 0, "causaloids": 0, "pairs_direct_vs_wrapped": 0, "short_observation_vectors": 0}
     n = 6000 if run.thorough else 800
     for _ in range(n):
         g = Gen(rng, max_ids=14)
@@ -19,6 +19,10 @@ def gen_cases(run):
         calls = []
         for _ in range(rng.randrange(1, 4)):
             data = data_for(rng, g, 14, p_true=rng.choice([0.8, 0.92, 0.98, 1.0]), p_err=rng.choice([0, 0.02, 0.08]))
+            if rng.random() < 0.2:
+                # fewer observations than items: nested items take the WHOLE vector, so a collection may legitimately hold
+                # more items than there are observations (a singleton beyond the end panics, in the model as in the code)
+                data = data[:rng.choice([1, 2, 3, 4, 6])]; dist["short_observation_vectors"] += 1
             idx = None
             if kind == 2 and rng.random() < 0.4:
                 perm = list(range(14)); rng.shuffle(perm); idx = [(i, perm[i]) for i in range(14)]
@@ -29,10 +33,10 @@ def gen_cases(run):
     return cases, dist
 
 
-CHECKS = [chk_trace, chk_nested_is_direct]
+CHECKS = [chk_trace, chk_nested_is_direct, chk_model_verdict]
 RULE = ("nesting trees to depth 4, fan-out up to 6: collections in collections, collections and graphs as non-root nodes of graphs, graphs in collections; nested nodes in first / "
-        "middle / last position; mixed verdicts inside the nested parts; contextual singletons built on one of two contexts; each data vector is used twice: direct reasoning over the "
-        "structure and verify_all_causes of the causaloid wrapping it. Oracles: trace = conjunction (T..T / T..TF / T..T[E]) and wrapped == direct (verdict and evaluated sequence). "
+        "middle / last position; mixed verdicts inside the nested parts; contextual singletons built on one of two contexts; 20% of the data vectors are cut to 1..6 observations (collections with more items than observations); each data vector is used twice: direct reasoning over the "
+        "structure and verify_all_causes of the causaloid wrapping it. Oracles: trace = conjunction (T..T / T..TF / T..T[E]), wrapped == direct (verdict and evaluated sequence), and verdict == the structural conjunction over everything contained (the model's verdict, by theorem). "
         "Non-trivial = a model with more than two causaloids")
 
 
